@@ -16,6 +16,7 @@ import (
 	"errors"
 	"fmt"
 	"net"
+	"reflect"
 	"runtime"
 	"sort"
 	"strconv"
@@ -265,6 +266,8 @@ type invRec struct {
 }
 
 type scenarioResult struct {
+	objs []any // the messages handed to the handlers, for the memory scan (peers are not
+	// scanned: the DHCPv4 broadcast peer legitimately carries the net.IPv4bcast slice)
 	exit       string
 	recs       []invRec
 	closeCalls int
@@ -359,6 +362,9 @@ func runScenario(v6 bool, wait int, evs []srvEvent) *scenarioResult {
 	var closeSrv func() error
 	if v6 {
 		s, err := server6.NewServer("", nil, func(conn net.PacketConn, peer net.Addr, d dhcpv6.DHCPv6) {
+			mu.Lock()
+			res.objs = append(res.objs, d)
+			mu.Unlock()
 			handle(conn, peer, func() string { return canon6(d) })
 		}, server6.WithConn(sc))
 		if err != nil {
@@ -367,6 +373,9 @@ func runScenario(v6 bool, wait int, evs []srvEvent) *scenarioResult {
 		serve, closeSrv = s.Serve, s.Close
 	} else {
 		s, err := server4.NewServer("", nil, func(conn net.PacketConn, peer net.Addr, m *dhcpv4.DHCPv4) {
+			mu.Lock()
+			res.objs = append(res.objs, m)
+			mu.Unlock()
 			handle(conn, peer, func() string { return canon4(m) })
 		}, server4.WithConn(sc))
 		if err != nil {
@@ -974,6 +983,24 @@ func expectC14(v6 bool, evs []srvEvent) (exp []expInv, wantExit string, undecoda
 // checkC14 runs one history on the real server and checks every clause of the property.
 func checkC14(v6 bool, wait int, evs []srvEvent) (what, class string) {
 	res := runScenario(v6, wait, evs)
+	// "independent of every other datagram's message", at the memory level: what two
+	// invocations were handed (message and peer) shares no writable memory - no
+	// common receive buffer, no package-level table or shared empty list that an
+	// append by one handler would make visible to another
+	{
+		sc := newScanner(nil)
+		for i, o := range res.objs {
+			if o == nil {
+				continue
+			}
+			sc.root = i
+			v := reflect.ValueOf(o)
+			sc.walk(v, "", typeName(v.Type()), 0)
+		}
+		if ov := sc.overlaps(true); len(ov) > 0 {
+			return "what two invocations were handed shares memory: " + ov[0], "server-shared-memory"
+		}
+	}
 	exp, wantExit, undec := expectC14(v6, evs)
 	firstErr := len(evs)
 	for i, e := range evs {
